@@ -6,7 +6,7 @@ core.setup_impl_path()
 P = importlib.import_module("harness.props.c05").PROP
 k = int(sys.argv[1]) if len(sys.argv) > 1 else 2
 rng = random.Random(core.seed_from_env())
-cases = list(P.generate(rng, "quick"))[:250]
+cases = list(P.generate(rng, "quick"))
 res = []
 for c in cases:
     o = P.run_impl(c); res.append((c, o, P.to_coq(c, o)))
